@@ -65,3 +65,8 @@ from c04sync_part import MODULES as _SYNC_MODULES, THEOREMS as _SYNC_THEOREMS, L
 PROP["modules"] += _SYNC_MODULES
 PROP["theorems"] += _SYNC_THEOREMS
 PROP["manifest"]["level_text"] += _SYNC_TEXT
+# SEQ (Model/Subscribe.lean) is simulated by the LTS instance C06Glue.subSys: STREAM + cache calls + flow control (Props/C04Refine.lean)
+from c04refine_part import MODULES as _REF_MODULES, THEOREMS as _REF_THEOREMS, LEVEL_TEXT as _REF_TEXT
+PROP["modules"] += _REF_MODULES
+PROP["theorems"] += _REF_THEOREMS
+PROP["manifest"]["level_text"] += _REF_TEXT
